@@ -89,7 +89,7 @@ def plan(tier, seed):
                        'first_case': f, 'n': k, 'secs': min(secs, 32 if quick else secs),
                        'hard_timeout': secs + 120})
     # blocks larger than one datagram
-    n = 24 if quick else 900
+    n = 60 if quick else 3000
     for p, (f, k) in enumerate(split(n, 2 if quick else 3)):
         shards.append({'name': f'rtbig{p}', 'mode': 'rt', 'kind': 'rtbig',
                        'first_case': f, 'n': k, 'secs': min(secs, 32 if quick else secs),
@@ -206,7 +206,7 @@ def run_shard(spec, acc):
             acc.count('rt_histories')
         if kind == 'rtalive':
             acc.count('alive_histories')
-            acc.count('alive_pings_on_wire', cap.bg_status - pings0)
+            acc.counters['alive_pings_on_wire'] = cap.bg_status
         if kind == 'rtbig':
             acc.count('big_block_histories')
         if multi:
